@@ -103,6 +103,9 @@ class Model:
         self.ltrain = True
         self.cells = [dict(), dict()]  # trainer -> cell name -> extra kind or None
         self.data = [dict(), dict()]  # trainer -> cell -> number of observations since registration/clear
+        # hidden history the registry cannot show: the trainer's monitors went through a deregister/register cycle
+        # (trainer.eval() then trainer.train() with cells registered) - handles and finalizers are then second-generation
+        self.recycled = [0, 0]
 
 
 def extra_ctor():
@@ -236,6 +239,8 @@ class LifecycleSystem:
                 m.cells[i][op[2]] = None
             elif name == "train":
                 tr.train()
+                if not m.training[i] and m.cells[i]:
+                    m.recycled[i] = 1
                 m.training[i] = True
             elif name == "eval":
                 tr.eval()
@@ -306,7 +311,8 @@ class LifecycleSystem:
             if any((c not in m.cells[j]) for c, _ in named):
                 bad.append((f"monitors-of-unregistered-cell:{self.kinds[j]}", f"after {op}: monitors listed for a cell that is not registered", None, named))
             distinct = {id(mm) for _, _, mm in self.monitors_of(st, j)}
-            if {id(x) for x in mons} != distinct:
+            # pooled monitors are listed once ("duplicate monitors are not created": the listing is of distinct objects)
+            if {id(x) for x in mons} != distinct or len(mons) != len(distinct):
                 bad.append((f"monitors-listing:{self.kinds[j]}", f"after {op}: monitors lists {len(mons)} objects, registry has {len(distinct)} distinct", len(distinct), len(mons)))
             extras = {c: ("extra" in dict(trj.named_monitors_of(c))) for c in m.cells[j]}
             for c, has in extras.items():
@@ -337,7 +343,7 @@ class LifecycleSystem:
             for c in sorted(m.cells[i]):
                 for n, mon in sorted(w.trainers[i].named_monitors_of(c), key=lambda x: x[0]):
                     alias.append((c, n, ids.setdefault(id(mon), len(ids)), bool(mon.registered)))
-            per.append((m.training[i], cells, tuple(alias)))
+            per.append((m.training[i], cells, tuple(alias), m.recycled[i]))
         # which trainer owns each cell-side monitor name (the map MSTDPET's eligibility monitors read through)
         owners = []
         for c in CELLS:
